@@ -35,6 +35,7 @@ fn main() {
         "engine-run" => engine::run(rest),
         "conv-record" => conv::record(rest),
         "conv-replay" => conv::replay(rest),
+        "conv-one" => conv::one(rest),
         "describe-child" => describe::child(rest),
         "describe-replay" => describe::replay(rest),
         "describe-record" => describe::record(rest),
